@@ -364,19 +364,26 @@ fn spawn_all(names: &[String], scripts: &[&str], is_op: &[bool], steer: bool, de
                     }
                     Poll::Ready(None) => break CloserEnd::None,
                     Poll::Pending => {
-                        if steer {
+                        let mut steered = false;
+                        if steer && lock().mode == 1 {
                             // wait for the controller's decision (pseudo site of action CRepoll)
                             park("repoll", 0);
                             if stop2.load(Ordering::SeqCst) {
                                 break CloserEnd::Stopped;
                             }
-                        } else {
+                            // granted while still steering: poll again; released: run free below
+                            steered = lock().mode == 1;
+                        }
+                        if !steered {
                             // free running: wait for the wake-up; when every holder has finished
                             // and no wake-up has arrived none can ever arrive
                             let t0 = Instant::now();
                             let stranded = loop {
                                 if wf.woken.load(Ordering::SeqCst) {
                                     break false;
+                                }
+                                if stop2.load(Ordering::SeqCst) {
+                                    break true;
                                 }
                                 if fin.load(Ordering::SeqCst) == nh {
                                     break !wf.woken.load(Ordering::SeqCst);
@@ -581,12 +588,32 @@ fn run_schedule(case: &Value) -> (Problems, u64, u64) {
             Parked::Timeout => diverged = Some("end: closer neither parked nor finished".into()),
         }
     }
-    // ---- wind down: everybody runs free, a pending closer gives up
-    s.stop.store(true, Ordering::SeqCst);
+    // ---- wind down. Normal end: a pending closer gives up. After a divergence everybody runs
+    // free and the closer waits for its wake-up like a real task would: whether close() resolves
+    // is still observed (on the real code, for whatever interleaving the threads then take)
+    if diverged.is_none() {
+        s.stop.store(true, Ordering::SeqCst);
+    }
     release_all();
+    let was_diverged = diverged.is_some();
+    let stop = s.stop.clone();
+    let end = s.closer_end.clone();
     let joined = s.threads.join_all();
+    stop.store(true, Ordering::SeqCst);
     if let Err(e) = &joined {
         p.0.push(("hang", sig("threads-do-not-end", json!({})), e.clone(), steps.len()));
+    }
+    if was_diverged && joined.is_ok() {
+        if let Some(CloserEnd::Stopped) = end.lock().unwrap_or_else(|e| e.into_inner()).clone() {
+            p.0.push((
+                "contract",
+                sig("close-never-resolves", json!({"mode": "after-divergence", "predicted": false})),
+                "after the real code left the model's schedule the threads ran free: every holder thread has ended, the \
+                 closer is pending and was never woken"
+                    .into(),
+                done as usize,
+            ));
+        }
     }
     let s2 = Setup {
         threads: Threads { joins: vec![] },
